@@ -7,10 +7,15 @@ use mithril_common::entities::StakeDistribution;
 
 /// records every registration sent to the aggregator with the epoch it was sent for
 #[derive(Default)]
-struct RecordingPublisher { sent: std::sync::Mutex<Vec<(Epoch, Signer)>> }
+struct RecordingPublisher { sent: std::sync::Mutex<Vec<(Epoch, Signer)>>, refuse_next: std::sync::Mutex<u32> }
 #[async_trait::async_trait]
 impl crate::services::SignerRegistrationPublisher for RecordingPublisher {
     async fn register_signer(&self, epoch: Epoch, signer: &Signer) -> StdResult<()> {
+        let mut refuse = self.refuse_next.lock().unwrap();
+        if *refuse > 0 {
+            *refuse -= 1;
+            return Err(anyhow::anyhow!("registration round not yet opened"));
+        }
         self.sent.lock().unwrap().push((epoch, signer.clone()));
         Ok(())
     }
@@ -54,6 +59,31 @@ async fn replay_register_signer_to_aggregator() {
     assert_eq!(publisher.sent.lock().unwrap().len(), 1, "a second registration was sent for the same recording epoch");
     let again = initializer_store.get_protocol_initializer(Epoch(21)).await.unwrap().unwrap();
     assert!(again.verification_key_for_concatenation() == saved.verification_key_for_concatenation(), "the key material registered for epoch 21 was REPLACED after registration");
+}
+
+/// a REFUSED registration leaves no key material behind, so that the next cycle registers again (keys found in the store make
+/// the runner skip the registration: the aggregator would never learn the key)
+#[tokio::test]
+async fn replay_register_signer_to_aggregator_refused_then_accepted() {
+    let mut services = init_services().await;
+    let publisher = Arc::new(RecordingPublisher::default());
+    *publisher.refuse_next.lock().unwrap() = 1;
+    services.signer_registration_publisher = publisher.clone();
+    let (stake_store, initializer_store, epoch_service) = (services.stake_store.clone(), services.protocol_initializer_store.clone(), services.epoch_service.clone());
+    let party_id = services.single_signer.get_party_id();
+    let stakes: StakeDistribution = [(party_id.clone(), 2100u64)].into_iter().collect();
+    stake_store.save_stakes(Epoch(21), stakes).await.unwrap();
+    {
+        let mut service = epoch_service.write().await;
+        service.inform_epoch_settings(Epoch(20), MithrilNetworkConfiguration { epoch: Epoch(20), ..Dummy::dummy() }, vec![], vec![]).await.unwrap();
+    }
+    let runner = init_runner(Some(services), None).await;
+    assert!(runner.register_signer_to_aggregator().await.is_err(), "a refused registration is reported as success");
+    assert!(initializer_store.get_protocol_initializer(Epoch(21)).await.unwrap().is_none(), "key material was KEPT although the aggregator refused the registration of its key");
+    runner.register_signer_to_aggregator().await.expect("the retry failed");
+    assert_eq!(publisher.sent.lock().unwrap().len(), 1, "after a refused first attempt the retry did not register the signer: the aggregator never received the key");
+    let saved = initializer_store.get_protocol_initializer(Epoch(21)).await.unwrap().expect("no key material after the accepted retry");
+    assert!(publisher.sent.lock().unwrap()[0].1.verification_key_for_concatenation == saved.verification_key_for_concatenation().into(), "the stored key material is not the one whose key the aggregator accepted");
 }
 
 #[tokio::test]
